@@ -415,7 +415,7 @@ def r5(R5, cfg, F):
     if ok:
         ok = any(th.dominates(ul[0].bb, n.bb) and n.bb in th.reachable([ul[0].target]) for n in nt if ul[0].target is not None)
         a = common.deep_path(th, nt[0].args[1], at=nt[0].bb)
-        ok = ok and bool(a) and 'as:Ptr' in a and nt[0].args[1].get('place', {}).get('ty') == 'usize'
+        ok = ok and bool(a) and 'as:Ptr' in a
     R5.check(ok, cfg, th.path, 'answers-after-update_if_local', 'the reloader must answer the token of the Ptr message after update_if_local returned', ul[0].loc() if ul else th.loc())
 
 
